@@ -29,7 +29,8 @@
 EXTENDS Integers, Sequences, FiniteSets
 
 AbsInit == [R |-> {}, J |-> {}, Inv |-> {}, any |-> {},
-            G |-> {}, open |-> {}, shut |-> {}, hard |-> {}, soft |-> {}]
+            G |-> {}, open |-> {}, shut |-> {}, hard |-> {}, soft |-> {},
+            inv |-> {}, ninv |-> {}]
 
 \* classes that mean "the peer refuses the transaction" beyond doubt
 \* (Mempool = it already has it, Confirmed = it is in the chain: not refusals)
@@ -50,7 +51,9 @@ AbsNext(a, act, o2) ==
             open |-> IF act.kind = "G" /\ p \notin a.shut THEN a.open \cup {p} ELSE a.open,
             shut |-> a.shut,
             hard |-> IF inTime /\ act.code \in HardCodes THEN a.hard \cup {p} ELSE a.hard,
-            soft |-> IF inTime /\ act.code \notin HardCodes THEN a.soft \cup {p} ELSE a.soft]
+            soft |-> IF inTime /\ act.code \notin HardCodes THEN a.soft \cup {p} ELSE a.soft,
+            inv  |-> IF inTime /\ act.code = 1 THEN a.inv \cup {p} ELSE a.inv,
+            ninv |-> IF inTime /\ act.code # 1 THEN a.ninv \cup {p} ELSE a.ninv]
 
 FailureJustified(a, thr) ==
   \/ a.R \subseteq a.J
@@ -66,11 +69,23 @@ FailureJustified(a, thr) ==
 RejectedBeyondDoubt(a) ==
   a.G # {} /\ \A p \in a.G : p \in a.hard /\ p \notin a.soft
 
+\* "... or the share calling it invalid reaches the configured threshold": a
+\* transaction whose invalid share reaches the threshold is a rejected one, and
+\* "a rejected transaction is never rebroadcast", so the verdict must not be
+\* nil.  "Reaches" is exact arithmetic (3 of 5 reaches 60 %).  Reported only
+\* when the threshold is reached under the NARROWEST count: invalid = peers
+\* that requested the tx and answered in time with Invalid-class rejects only,
+\* over ALL peers that requested it at any time.
+ThresholdBeyondDoubt(a, thr) ==
+  a.G # {} /\ Cardinality((a.inv \ a.ninv) \cap a.G) * 100 >= thr * Cardinality(a.G)
+
 Viol(a, o, act, a2, o2) ==
   (IF o.verdict = 0 /\ o2.verdict >= 10 /\ ~FailureJustified(a2, o2.thr)
    THEN {"FailOnlyIfAllRejectedOrThreshold"} ELSE {})
   \cup (IF o.verdict = 0 /\ o2.verdict = 1 /\ RejectedBeyondDoubt(a2)
         THEN {"RejectedByEveryReplierNotAccepted"} ELSE {})
+  \cup (IF o.verdict = 0 /\ o2.verdict = 1 /\ ThresholdBeyondDoubt(a2, o2.thr)
+        THEN {"ThresholdReachedNotAccepted"} ELSE {})
 
 EndViol(a, o) == {}
 =============================================================================
